@@ -195,8 +195,13 @@ def run(ctx, report):
     if n_actions < 55:
         raise AnalysisError('only %d grammar actions found (floor 55)' % n_actions)
 
+    R3 = report.rule('C19.D3', 'both operand grammars give base+index*scale the same meaning when base and index coincide', floor=2)
+    from .c02 import accumulate_rule
+    accumulate_rule(R3, ctx.mod('ia32_att'), ctx.mod('parse_ad'))
+
 
 MUTANTS = [
+    ('deref3-overwrite', 'miasmx/arch/ia32_att.py', "    t[0][reg] = t[6] + t[0].get(reg, 0)", "    t[0][reg] = t[6]", 'C19.D3'),
     ('intel-reg0-nolower', 'miasmx/core/parse_ad.py',
      "    '''register : REGISTER'''\n    reg = t[1].lower()\n    if reg == 'st': reg = 'st0'\n    t[0] = {x86_afs.reg_dict[reg]:1, x86_afs.size: registers[reg]}",
      "    '''register : REGISTER'''\n    reg = t[1]\n    if reg == 'st': reg = 'st0'\n    t[0] = {x86_afs.reg_dict[t[1]]:1, x86_afs.size: registers[reg]}", 'C19.D1'),
